@@ -12,7 +12,14 @@ to_string_pretty, Display for Table and Display for Value, reads the SECTION STR
 (headers, key names and the shape of every value, in order of appearance), decodes the text again, and
 prints
 
-  vdoc=<doc> pdoc=<doc> tdoc=<doc> sdoc=<doc> vdisp=<shape> rb=<value> fix=.. pp=.. dec=.. tfix=.. sdec=.. s2fix=.. det=.. # text=<hex> ptext=<hex> ttext=<hex> stext=<hex>
+  vdoc=<doc> pdoc=<doc> tdoc=<doc> sdoc=<doc> vdisp=<shape> edisp=<shape>,.. rb=<value> fix=.. pp=.. dec=.. tfix=.. sdec=.. s2fix=.. det=.. # text=<hex> ptext=<hex> ttext=<hex> stext=<hex>
+
+(vdisp: the text of `Display for toml::Value` on the whole value, read back as a toml_edit value; edisp: the same for every
+entry of the root table taken by itself, `table["k"].to_string()`, in the map's order.  A root that is NOT a table — a lone
+string / integer / float / boolean / date-time / array — has no document: the line is `not-a-table:<ok|err> vdisp=<shape>`,
+where err is the verdict of toml::to_string (a document is a table) and vdisp must be the value itself: this is where the
+repaired defect C06-root-datetime-printed-as-table showed — Display of Value::Datetime printed the table
+{ "$__toml_private_datetime" = ".." } and to_string wrote it as a document.)
 
 (sdoc / sdec / s2fix / stext: the same tree serialized by a wrapper that, like a derived struct or a plain map,
 hands every container's entries over in the container's own order at every level — no three loops anywhere)
@@ -355,11 +362,31 @@ WITNESS_TREES = [
 ]
 
 
+def root_value_cases():
+    """roots that are not tables: every scalar kind (all date-time shapes), arrays; both map configurations"""
+    one = ("i", 1)
+    roots = [("s", x) for x in STRS] + [("i", z) for z in (0, 1, -1, 42, 2 ** 63 - 1, -2 ** 63)] + \
+            [("f", struct.unpack("<Q", struct.pack("<d", x))[0]) for x in FLOATS] + [("f", 0x7ff8000000000000)] + \
+            [("b", True), ("b", False)] + [("d", x) for x in DATES] + \
+            [[], [one, ("i", 2)], [("d", DATES[0]), ("d", DATES[5])], [[], [one]], [Tab([(b"b", one), (b"a", ("d", DATES[6]))]), Tab()],
+             [one, Tab([(b"z", Tab([(b"k", one)])), (b"a", one)])]]
+    out = []
+    for t in roots:
+        e = enc(t).encode()
+        for o in ("s", "i"):
+            out.append(Case("val", [o.encode(), e], {"kind": "root-value/" + o, "nt": False}))
+    return out
+
+
 def gen_cases(rng, tier):
     quick = tier == "quick"
     out = []
     for t in WITNESS_TREES:
         out += mk_cases(t, "witness")
+    out += root_value_cases()
+    # date-times of every shape as root ENTRIES (Display of an indexed entry)
+    out += mk_cases(Tab([(("k%d" % i).encode(), ("d", x)) for i, x in enumerate(DATES)] + [(b"s", ("s", b"x")), (b"f", ("f", 0x3ff8000000000000)),
+                         (b"b", ("b", True)), (b"a", [("d", DATES[0])]), (b"t", Tab([(b"d", ("d", DATES[5]))]))]), "witness")
     # exhaustive small scope: every sequence of entry kinds, keys in every order
     maxn = 3 if quick else 4
     names = [b"a", b"b", b"c", b"d"]
@@ -409,8 +436,10 @@ def gen_cases(rng, tier):
     while made < n_der:
         ty = g.root_ty()
         v = g.value(ty)
-        if GS.mentions_private(ty, v) or _root_is_datetime(ty, v):
+        if GS.mentions_private(ty, v):
             continue        # the in-band date-time tunnel names: C07's known class F14, not this property
+                            # (a date-time at the root is simply not serializable as a document since the repair of
+                            # C06-root-datetime-printed-as-table: s1=err, nothing is claimed)
         a = [GS.ty_str(ty).encode(), GS.val_str(v).encode()]
         for o in (b"s", b"i"):
             out.append(Case("canon", a + [o], {"kind": "derived/" + o.decode(), "nt": GS.ty_depth(ty) >= 2}))
@@ -418,12 +447,6 @@ def gen_cases(rng, tier):
     del _ALL[:]
     _ALL.extend(out)
     return out
-
-
-def _root_is_datetime(ty, v):
-    while ty[0] in ("N", "O") and v[0] in ("W", "O"):
-        ty, v = (ty[2] if ty[0] == "N" else ty[1]), v[1]
-    return ty[0] in ("dt", "da", "ti") or (ty[0] == "v" and v[0] == "V" and v[1][0] == "X")
 
 
 # ------------------------------------------------------------------------------------------
@@ -632,8 +655,25 @@ def oracle(case, impl_line):
         return oracle_canon(case, il)
     tree = dec(case.args[1].decode())
     if not isinstance(tree, Tab):
-        return None if il == "not-a-table:err" else "a non-table root was serialized: %s" % il[:80]
+        head, _, vd = il.partition(" vdisp=")
+        if head != "not-a-table:err":
+            return "a non-table root was serialized as a document: %s" % il[:80]
+        return disp_is(vd, tree, "Display for toml::Value on a lone value")
     f = fields(il)
+    if "edisp" not in f:
+        return "malformed observation line: %s" % il[:200]
+    why = disp_is(f["vdisp"], tree, "Display for toml::Value")
+    if why:
+        return why
+    eds = f["edisp"].split(",") if f["edisp"] else []
+    if len(eds) != len(tree.items):
+        return "Display of the root entries: %d texts for %d entries" % (len(eds), len(tree.items))
+    try:
+        got = sorted(repr(nan_free(norm_tree(dec(x)))) for x in eds)
+    except Exception:
+        return "Display of a root entry is not a TOML value: %s" % f["edisp"][:200]
+    if got != sorted(repr(nan_free(norm_tree(x))) for _, x in tree.items):
+        return "Display of a root entry taken by itself (table[\"k\"].to_string()) is another value than the entry: %s" % f["edisp"][:200]
     for k in ("vdoc", "pdoc", "tdoc", "sdoc", "vdisp", "rb", "fix", "pp", "dec", "tfix", "sdec", "s2fix", "det", "text", "ptext", "ttext", "stext"):
         if k not in f:
             return "malformed observation line: %s" % il[:200]
@@ -666,6 +706,30 @@ def oracle(case, impl_line):
         return "unreadable rb"
     if norm_tree(dec(f["rb"])) != want:
         return "from_str(to_string(v)) is another value than v"
+    return None
+
+
+def nan_free(n):
+    """norm_tree form with every NaN collapsed (the serializer drops the sign of NaN)"""
+    if n[0] == "A":
+        return ("A", tuple(nan_free(x) for x in n[1]))
+    if n[0] == "T":
+        return ("T", tuple((k, nan_free(x)) for k, x in n[1]))
+    if n[0] == "f" and isinstance(n[1], int) and (n[1] & 0x7fffffffffffffff) > 0x7ff0000000000000:
+        return ("f", "nan")
+    return n
+
+
+def disp_is(shape, tree, what):
+    """the text `Display for toml::Value` printed, read back (shape), must be the described value"""
+    if shape == "UNREADABLE":
+        return "%s: the text is not a TOML value" % what
+    try:
+        got = dec(shape.replace("M", "A"))
+    except Exception:
+        return "%s: unreadable shape %s" % (what, shape[:120])
+    if nan_free(norm_tree(got)) != nan_free(norm_tree(tree)):
+        return "%s prints another value: %s" % (what, shape[:200])
     return None
 
 
